@@ -49,6 +49,9 @@ type Script struct {
 	// RejectRcptPrefix: every RCPT whose path starts with this prefix is answered 550 (unless the
 	// step has a scripted outcome of its own).
 	RejectRcptPrefix string `json:"reject_rcpt_prefix,omitempty"`
+	// DropDataRcptPrefix: a transaction with an accepted recipient whose path starts with this prefix
+	// has its connection closed after DropInData bytes of content (whatever DropData/DataTxn say).
+	DropDataRcptPrefix string `json:"drop_data_rcpt_prefix,omitempty"`
 }
 
 func (s *Script) outcome(step string) Outcome {
@@ -851,6 +854,13 @@ func (s *Server) serve(rawConn net.Conn, implicitTLS bool, sess *Session) {
 			limit := -1
 			if (sc.DropData || sc.StallData) && thisTxn {
 				limit = sc.DropInData
+			}
+			if sc.DropDataRcptPrefix != "" {
+				for _, r := range txn.Rcpts {
+					if strings.HasPrefix(r.Path, sc.DropDataRcptPrefix) {
+						limit = sc.DropInData
+					}
+				}
 			}
 			payload, terminated, aborted := c.readData(limit, sc.StallData && thisTxn, s)
 			sess.mu.Lock()
